@@ -877,8 +877,9 @@ def r10_front_end_memory_is_linear(ctx):
     """The arenas give nothing back until the stage ends, so anything the front end allocates per token or per diagnostic must
     be sized by that token / diagnostic - never by the whole text.  Two places where size times count meets the arena's
     capacity on inputs of a few kilobytes: (a) the table of line starts (one word per line, built by a scan of the whole text)
-    is built once per rendering, not once per located position; (b) the buffer for an escaped string literal is reserved for
-    the rest of the line, not for the rest of the file."""
+    is built once per rendering, not once per located position; (b) a buffer the scanner reserves for one token is sized by
+    what that token has consumed - not by the rest of the file, and not by a distance found by searching ahead (the rest of
+    the line is the rest of the file on a one-line layout)."""
     from .c03 import natural_loop
     cls = ctx.lib.fns.get(DIAG + "compute_line_starts")
     n = 0
@@ -924,11 +925,17 @@ def r10_front_end_memory_is_linear(ctx):
             ctx.touch(fn)
             key = "token-buffer|%s|%s" % (parent_fn(fn.id).split("::")[-1], short)
             rest = re.search(r"len\(index\(self\.src,Range(?:From)?::Range(?:From)?\{[^}]*self\.pos[^}]*\}\)\)|Sub\(self\.len,self\.pos\)|\blen\(bytes\)|len\(self\.src\)|self\.len\b", size)
-            if rest and "memchr" not in size:
+            ahead = re.search(r"memchr2?\(", size)
+            if rest and not ahead:
                 ctx.bad(key + "|rest-of-input", fn.where(c.block), "%s reserves `%s` bytes for one token: the rest of the file, taken from an arena that gives nothing back - every string literal with an escape costs 'remaining file size', so a valid 86 KB program of `shout(\"a\\n\")` lines aborts in the lexer with 'memory allocation failed'" % (parent_fn(fn.id).split("::")[-1], size[:60]))
+            elif ahead:
+                # a distance found by searching ahead (to the end of the line, to the next quote of *some* literal) is not a
+                # bound on this token: it is the rest of the line, and on a one-line layout the rest of the file
+                ctx.bad(key + "|search-ahead", fn.where(c.block), "%s reserves `%s` bytes for one token - a distance found by searching ahead of the cursor (the rest of the line), not the bytes the token has consumed: with many escaped literals on one line the reservations add up to (file size)^2 / 2 and the same program that runs with one statement per line aborts with 'memory allocation failed' when written on a single line" % (parent_fn(fn.id).split("::")[-1], size[:60]))
             else:
                 ctx.ok(key, fn.where(c.block), "sized by `%s`" % size[:50])
-    ctx.floor("buffers reserved by the scanner", m, 1)
+    if m == 0:
+        ctx.ok("token-buffer|none", "src/syntax/scanner.rs", "the scanner reserves nothing ahead of a token: buffers grow with the bytes copied into them")
 
 
 def r12_checker_indexes_follow_a_length_test(ctx):
@@ -1082,3 +1089,6 @@ EXPLANATION += (
 ASSUMPTIONS = ["the input is a &str (valid UTF-8)", "memchr2 returns an index <= haystack length"]
 TRUSTED = ["rustc nightly MIR", "nsx exporter", "nsverif expression reconstruction / staleness computation"]
 NONTRIVIAL = "one obligation per cursor write, call-site justification, byte read, unchecked re-slice, parser loop; distinct = distinct site"
+EXPLANATION += (
+    ' R10(b) now also rejects a per-token reservation sized by a distance found by searching ahead of the cursor (memchr to the end of the line): that is the rest of the file on a one-line layout (D41, a defect of my own D39 repair).'
+)
